@@ -206,12 +206,20 @@ package jsonpath
 //@   ensures inv: forall i {sortInv(old(A_Str[arr(x)]), off(x), len(x), i)} :: off(x) <= i && i < off(x) + len(x) ==> off(x) <= sortInv(old(A_Str[arr(x)]), off(x), len(x), i) && sortInv(old(A_Str[arr(x)]), off(x), len(x), i) < off(x) + len(x) && sortPerm(old(A_Str[arr(x)]), off(x), len(x), sortInv(old(A_Str[arr(x)]), off(x), len(x), i)) == i
 //@   ensures sorted: forall i, j {elemAt(x, i), elemAt(x, j)} :: off(x) <= i && i < j && j < off(x) + len(x) ==> !strLt(elemAt(x, j), elemAt(x, i))
 
+//@ smt (declare-fun rtypeOf (Val) Val)
+//@ smt (declare-fun typeStr (Val) Str)
 //@ extern reflect.TypeOf
 //@   ensures i != nil ==> ret != nil
+//@   ensures ret == rtypeOf(i)
 //@   pure
 
 //@ interface Type.String
+//@   ensures ret == typeStr(this)
 //@   pure
+
+// C15: a type mismatch is reported by the step that met it, with the container kind it expects and the Go type it found
+//@ spec foundName(v any) string = v == nil ? "null" : typeStr(rtypeOf(v))
+//@ spec mismatch(e errorRuntime, rt *errorBasicRuntime, expected string, v any) bool = isType(e, ErrorTypeUnmatched) && asType(e, ErrorTypeUnmatched).errorBasicRuntime == rt && asType(e, ErrorTypeUnmatched).expectedType == expected && asType(e, ErrorTypeUnmatched).foundType == foundName(v)
 
 //@ func getContainer
 //@   props C03 C04 C05 C06 C20
@@ -368,9 +376,11 @@ package jsonpath
 //@   unfold WFnode(this) ==> WFcurrentDef(i)
 
 //@ func (*syntaxChildSingleIdentifier).retrieve
-//@   props C03 C04 C05 C06 C20
+//@   props C03 C04 C05 C06 C20 C15 C16
 //@   implements syntaxNode.retrieve
 //@   unfold WFnode(this) ==> WFsingleDef(i)
+//@   ensures mismatch: !isType(current, map[string]interface{}) ==> mismatch(ret, i.errorRuntime, "object", current) && len(container.result) == old(len(container.result))
+//@   before retrieveMapNext#1 assert key: arg3 == i.identifier && arg2 == asType(current, map[string]interface{})
 
 //@ func (*syntaxFilterFunction).retrieve
 //@   props C03 C04 C05 C06 C20 C14
@@ -405,9 +415,10 @@ package jsonpath
 //@   ensures fresh: fresh(ret) && wf(ret)
 
 //@ func (*syntaxChildWildcardIdentifier).retrieve
-//@   props C03 C04 C05 C06 C20
+//@   props C03 C04 C05 C06 C20 C15
 //@   implements syntaxNode.retrieve
 //@   unfold WFnode(this) ==> WFwildcardDef(i)
+//@   ensures mismatch: !isType(current, map[string]interface{}) && !isType(current, []interface{}) ==> mismatch(ret, i.errorRuntime, "object/array", current) && len(container.result) == old(len(container.result))
 
 //@ func (*syntaxChildWildcardIdentifier).retrieveMap
 //@   props C03 C04 C05 C06 C07 C20
@@ -424,9 +435,10 @@ package jsonpath
 //@   loop 1 invariant bufInv(container) && errInv(deepestTextLen, deepestError)
 
 //@ func (*syntaxChildMultiIdentifier).retrieve
-//@   props C03 C04 C05 C06 C20
+//@   props C03 C04 C05 C06 C20 C15
 //@   implements syntaxNode.retrieve
 //@   unfold WFnode(this) ==> WFmultiDef(i)
+//@   ensures mismatch: !isType(current, map[string]interface{}) && !(i.isAllWildcard && isType(current, []interface{})) ==> mismatch(ret, i.errorRuntime, "object", current) && len(container.result) == old(len(container.result))
 
 //@ func (*syntaxChildMultiIdentifier).retrieveMap
 //@   props C03 C04 C05 C06 C07 C20
@@ -436,18 +448,20 @@ package jsonpath
 //@   loop 1 invariant bufInv(container) && errInv(deepestTextLen, deepestError)
 
 //@ func (*syntaxUnionQualifier).retrieve
-//@   props C03 C04 C05 C06 C07 C11 C20
+//@   props C03 C04 C05 C06 C07 C11 C20 C15
 //@   implements syntaxNode.retrieve
 //@   unfold WFnode(this) ==> WFunionDef(u)
+//@   ensures mismatch: !isType(current, []interface{}) ==> mismatch(ret, u.errorRuntime, "array", current) && len(container.result) == old(len(container.result))
 //@   loop 1 invariant bufInv(container) && errInv(deepestTextLen, deepestError)
 //@   loop 1 invariant single: chainSingle(this) ==> len(container.result) <= old(len(container.result)) + rangeindex1 + 1
 //@   loop 2 invariant single: chainSingle(this) ==> len(container.result) <= old(len(container.result)) + rangeindex1 + 1 + rangeindex2 + 1 && len(rangeslice2) <= 1
 //@   loop 2 invariant bufInv(container) && errInv(deepestTextLen, deepestError) && wf(rangeslice2) && mine(rangeslice2) && arr(rangeslice2) != arr(container.result) && (forall k {elemAt(rangeslice2, k)} :: off(rangeslice2) <= k && k < off(rangeslice2) + len(rangeslice2) ==> 0 <= elemAt(rangeslice2, k) && elemAt(rangeslice2, k) < len(srcArray))
 
 //@ func (*syntaxRecursiveChildIdentifier).retrieve
-//@   props C03 C04 C05 C06 C07 C20
+//@   props C03 C04 C05 C06 C07 C20 C15
 //@   implements syntaxNode.retrieve
 //@   unfold WFnode(this) ==> WFrecursiveDef(i)
+//@   ensures mismatch: !isType(current, map[string]interface{}) && !isType(current, []interface{}) ==> mismatch(ret, i.errorRuntime, "object/array", current) && len(container.result) == old(len(container.result))
 //@   loop 1 invariant buf: bufInv(container)
 //@   loop 1 invariant errs: errInv(deepestTextLen, deepestError)
 //@   loop 1 invariant stackwf: wf(targetNodes)
@@ -765,9 +779,10 @@ package jsonpath
 //@   loop 1 invariant none: !hasValue ==> (forall j {elemAt(computedList, j)} :: 0 <= j && j <= rangeindex ==> elemAt(computedList, j) == emptyEntity)
 
 //@ func (*syntaxFilterQualifier).retrieve
-//@   props C03 C04 C05 C06 C20
+//@   props C03 C04 C05 C06 C20 C15
 //@   implements syntaxNode.retrieve
 //@   unfold WFnode(this) ==> WFfilterDef(f)
+//@   ensures mismatch: !isType(current, map[string]interface{}) && !isType(current, []interface{}) ==> mismatch(ret, f.errorRuntime, "object/array", current) && len(container.result) == old(len(container.result))
 
 //@ func (*syntaxFilterQualifier).retrieveMap
 //@   props C03 C04 C05 C06 C07 C20
@@ -972,48 +987,81 @@ package jsonpath
 //@   parsetime
 //@   requires p != nil
 
+// C09/C10 at parse time: what a comparison builds from its two operands.  A literal value ends up on the right and its
+// dynamic type picks the validator of a direct comparison; otherwise a constant ($-rooted) operand ends up on the right and
+// the comparison is deep equality; an ordering whose operands are swapped uses the mirrored comparator.
+//@ spec litOf(x *syntaxBasicCompareParameter) bool = isType(x.param, *syntaxQueryParamLiteral)
+//@ spec litVal(x *syntaxBasicCompareParameter) any = asType(x.param, *syntaxQueryParamLiteral).literal[0]
+//@ spec cparamOK(x *syntaxBasicCompareParameter) bool = x != nil && x.param != nil && (litOf(x) ==> asType(x.param, *syntaxQueryParamLiteral) != nil && len(asType(x.param, *syntaxQueryParamLiteral).literal) == 1 && litKind(litVal(x)) && x.isLiteral)
+//@ spec topParam(p *jsonPathParser) any = elemAt(p.params, off(p.params) + len(p.params) - 1)
+//@ spec directFor(c syntaxComparator, v any) bool = isType(c, *syntaxCompareDirectEQ) && asType(c, *syntaxCompareDirectEQ) != nil && (isType(v, float64) ==> isType(asType(c, *syntaxCompareDirectEQ).syntaxTypeValidator, *syntaxBasicNumericTypeValidator)) && (isType(v, bool) ==> isType(asType(c, *syntaxCompareDirectEQ).syntaxTypeValidator, *syntaxBasicBoolTypeValidator)) && (isType(v, string) ==> isType(asType(c, *syntaxCompareDirectEQ).syntaxTypeValidator, *syntaxBasicStringTypeValidator)) && (v == nil ==> isType(asType(c, *syntaxCompareDirectEQ).syntaxTypeValidator, *syntaxBasicNilTypeValidator))
+//@ spec sameOperands(q *syntaxBasicCompareQuery, l *syntaxBasicCompareParameter, r *syntaxBasicCompareParameter) bool = (q.leftParam == l && q.rightParam == r) || (q.leftParam == r && q.rightParam == l)
+// (lv, rv: the literal values of l and r when the comparison was built)
+//@ spec eqBuilt(q *syntaxBasicCompareQuery, l *syntaxBasicCompareParameter, r *syntaxBasicCompareParameter, lv any, rv any) bool = q != nil && sameOperands(q, l, r) && ((litOf(l) || litOf(r)) ==> litOf(q.rightParam)) && ((l.isLiteral || r.isLiteral) ==> q.rightParam.isLiteral) && (litOf(q.rightParam) ? directFor(q.comparator, q.rightParam == r ? rv : lv) : (isType(q.comparator, *syntaxCompareDeepEQ) && asType(q.comparator, *syntaxCompareDeepEQ) != nil))
+//@ spec constRight(q *syntaxBasicCompareQuery, l *syntaxBasicCompareParameter, r *syntaxBasicCompareParameter) bool = (l.isLiteral || r.isLiteral) ==> q.rightParam.isLiteral
+//@ spec geBuilt(q *syntaxBasicCompareQuery, l *syntaxBasicCompareParameter, r *syntaxBasicCompareParameter) bool = q != nil && q.comparator != nil && constRight(q, l, r) && ((q.leftParam == l && q.rightParam == r && isType(q.comparator, *syntaxCompareGE)) || (q.leftParam == r && q.rightParam == l && isType(q.comparator, *syntaxCompareLE)))
+//@ spec gtBuilt(q *syntaxBasicCompareQuery, l *syntaxBasicCompareParameter, r *syntaxBasicCompareParameter) bool = q != nil && q.comparator != nil && constRight(q, l, r) && ((q.leftParam == l && q.rightParam == r && isType(q.comparator, *syntaxCompareGT)) || (q.leftParam == r && q.rightParam == l && isType(q.comparator, *syntaxCompareLT)))
+//@ spec leBuilt(q *syntaxBasicCompareQuery, l *syntaxBasicCompareParameter, r *syntaxBasicCompareParameter) bool = q != nil && q.comparator != nil && constRight(q, l, r) && ((q.leftParam == l && q.rightParam == r && isType(q.comparator, *syntaxCompareLE)) || (q.leftParam == r && q.rightParam == l && isType(q.comparator, *syntaxCompareGE)))
+//@ spec ltBuilt(q *syntaxBasicCompareQuery, l *syntaxBasicCompareParameter, r *syntaxBasicCompareParameter) bool = q != nil && q.comparator != nil && constRight(q, l, r) && ((q.leftParam == l && q.rightParam == r && isType(q.comparator, *syntaxCompareLT)) || (q.leftParam == r && q.rightParam == l && isType(q.comparator, *syntaxCompareGT)))
+//@ spec pushedOne(p *jsonPathParser) bool = len(p.params) == old(len(p.params)) + 1 && len(p.params) >= 1
+
 //@ func (*jsonPathParser).pushCompareEQ
-//@   props C02 C19
+//@   props C02 C19 C09 C10
 //@   parsetime
 //@   requires p != nil
 //@   requires wf(p.params)
-//@   requires leftParam != nil && rightParam != nil && leftParam.param != nil && rightParam.param != nil && (isType(leftParam.param, *syntaxQueryParamLiteral) ==> asType(leftParam.param, *syntaxQueryParamLiteral) != nil && len(asType(leftParam.param, *syntaxQueryParamLiteral).literal) == 1 && litKind(asType(leftParam.param, *syntaxQueryParamLiteral).literal[0])) && (isType(rightParam.param, *syntaxQueryParamLiteral) ==> asType(rightParam.param, *syntaxQueryParamLiteral) != nil && len(asType(rightParam.param, *syntaxQueryParamLiteral).literal) == 1 && litKind(asType(rightParam.param, *syntaxQueryParamLiteral).literal[0]))
-//@   ensures pushed: len(p.params) == old(len(p.params)) + 1 && len(p.params) >= 1 && isType(elemAt(p.params, off(p.params) + len(p.params) - 1), syntaxQuery)
+//@   requires cparamOK(leftParam) && cparamOK(rightParam)
+//@   ensures pushed: pushedOne(p) && isType(topParam(p), *syntaxBasicCompareQuery)
+//@   ensures built: eqBuilt(asType(topParam(p), *syntaxBasicCompareQuery), leftParam, rightParam, old(litVal(leftParam)), old(litVal(rightParam)))
 
 //@ func (*jsonPathParser).pushCompareGE
-//@   props C02 C19
+//@   props C02 C19 C09 C10
 //@   parsetime
 //@   requires p != nil
+//@   requires wf(p.params)
 //@   requires leftParam != nil && rightParam != nil
+//@   ensures pushed: pushedOne(p) && isType(topParam(p), *syntaxBasicCompareQuery)
+//@   ensures built: geBuilt(asType(topParam(p), *syntaxBasicCompareQuery), leftParam, rightParam)
 //@   decreases (leftParam.isLiteral && !rightParam.isLiteral) ? 1 : 0
 
 //@ func (*jsonPathParser).pushCompareGT
-//@   props C02 C19
-//@   parsetime
-//@   requires p != nil
-//@   requires leftParam != nil && rightParam != nil
-//@   decreases (leftParam.isLiteral && !rightParam.isLiteral) ? 1 : 0
-
-//@ func (*jsonPathParser).pushCompareLE
-//@   props C02 C19
-//@   parsetime
-//@   requires p != nil
-//@   requires leftParam != nil && rightParam != nil
-//@   decreases (leftParam.isLiteral && !rightParam.isLiteral) ? 1 : 0
-
-//@ func (*jsonPathParser).pushCompareLT
-//@   props C02 C19
-//@   parsetime
-//@   requires p != nil
-//@   requires leftParam != nil && rightParam != nil
-//@   decreases (leftParam.isLiteral && !rightParam.isLiteral) ? 1 : 0
-
-//@ func (*jsonPathParser).pushCompareNE
-//@   props C02 C19
+//@   props C02 C19 C09 C10
 //@   parsetime
 //@   requires p != nil
 //@   requires wf(p.params)
-//@   requires leftParam != nil && rightParam != nil && leftParam.param != nil && rightParam.param != nil && (isType(leftParam.param, *syntaxQueryParamLiteral) ==> asType(leftParam.param, *syntaxQueryParamLiteral) != nil && len(asType(leftParam.param, *syntaxQueryParamLiteral).literal) == 1 && litKind(asType(leftParam.param, *syntaxQueryParamLiteral).literal[0])) && (isType(rightParam.param, *syntaxQueryParamLiteral) ==> asType(rightParam.param, *syntaxQueryParamLiteral) != nil && len(asType(rightParam.param, *syntaxQueryParamLiteral).literal) == 1 && litKind(asType(rightParam.param, *syntaxQueryParamLiteral).literal[0]))
+//@   requires leftParam != nil && rightParam != nil
+//@   ensures pushed: pushedOne(p) && isType(topParam(p), *syntaxBasicCompareQuery)
+//@   ensures built: gtBuilt(asType(topParam(p), *syntaxBasicCompareQuery), leftParam, rightParam)
+//@   decreases (leftParam.isLiteral && !rightParam.isLiteral) ? 1 : 0
+
+//@ func (*jsonPathParser).pushCompareLE
+//@   props C02 C19 C09 C10
+//@   parsetime
+//@   requires p != nil
+//@   requires wf(p.params)
+//@   requires leftParam != nil && rightParam != nil
+//@   ensures pushed: pushedOne(p) && isType(topParam(p), *syntaxBasicCompareQuery)
+//@   ensures built: leBuilt(asType(topParam(p), *syntaxBasicCompareQuery), leftParam, rightParam)
+//@   decreases (leftParam.isLiteral && !rightParam.isLiteral) ? 1 : 0
+
+//@ func (*jsonPathParser).pushCompareLT
+//@   props C02 C19 C09 C10
+//@   parsetime
+//@   requires p != nil
+//@   requires wf(p.params)
+//@   requires leftParam != nil && rightParam != nil
+//@   ensures pushed: pushedOne(p) && isType(topParam(p), *syntaxBasicCompareQuery)
+//@   ensures built: ltBuilt(asType(topParam(p), *syntaxBasicCompareQuery), leftParam, rightParam)
+//@   decreases (leftParam.isLiteral && !rightParam.isLiteral) ? 1 : 0
+
+//@ func (*jsonPathParser).pushCompareNE
+//@   props C02 C19 C09 C10
+//@   parsetime
+//@   requires p != nil
+//@   requires wf(p.params)
+//@   requires cparamOK(leftParam) && cparamOK(rightParam)
+//@   ensures pushed: pushedOne(p) && isType(topParam(p), *syntaxLogicalNot) && asType(topParam(p), *syntaxLogicalNot) != nil
+//@   ensures built: isType(asType(topParam(p), *syntaxLogicalNot).query, *syntaxBasicCompareQuery) && eqBuilt(asType(asType(topParam(p), *syntaxLogicalNot).query, *syntaxBasicCompareQuery), leftParam, rightParam, old(litVal(leftParam)), old(litVal(rightParam)))
 
 //@ func (*jsonPathParser).pushCompareParameterCurrentRoot
 //@   props C02 C19
